@@ -85,33 +85,49 @@ fn check(expr: BoundExpression, c: i64, side: u8, inclusive: bool) {
     std::mem::forget(g);
     std::mem::forget(expr);
 }
-// @obl harness=c06_rule_col_op_lit id=C06.index_bounds_mapping[col op literal] tier=quick funcs="FilterToIndexScanRule::collect_bounds,FilterToIndexScanRule::extract_column_info,FilterToIndexScanRule::extract_literal" bounds="op in {=,>,>=,<,<=}, BigInt literal symbolic, column at position 1 of a 2-column index" stubs="<BoundExpression as Clone>::clone" unwind=5
+// @obl harness=c06_rule_col_op_lit_lower id=C06.index_bounds_mapping[col_=,>,>=_literal] tier=quick funcs="FilterToIndexScanRule::collect_bounds,FilterToIndexScanRule::extract_column_info,FilterToIndexScanRule::extract_literal" bounds="BigInt literal symbolic, column at position 1 of a 2-column index" stubs="<BoundExpression as Clone>::clone" unwind=5
 #[kani::proof]
 #[kani::unwind(5)]
 #[kani::stub(<BoundExpression as std::clone::Clone>::clone, stub_clone)]
-fn c06_rule_col_op_lit() {
+fn c06_rule_col_op_lit_lower() {
     let c: i64 = kani::any();
     kani::cover!(true, "reach");
     check(cmp(col(COL), BinaryOperator::Eq, lit(c)), c, BOTH, true);
     check(cmp(col(COL), BinaryOperator::Gt, lit(c)), c, START, false);
     check(cmp(col(COL), BinaryOperator::Ge, lit(c)), c, START, true);
-    check(cmp(col(COL), BinaryOperator::Lt, lit(c)), c, END, false);
-    check(cmp(col(COL), BinaryOperator::Le, lit(c)), c, END, true);
 }
-// @obl harness=c06_rule_lit_op_col id=C06.index_bounds_mapping[literal op col] tier=quick funcs="FilterToIndexScanRule::collect_bounds,FilterToIndexScanRule::extract_column_info,FilterToIndexScanRule::extract_literal" bounds="op in {=,>,>=,<,<=} with the literal on the left (the comparison is mirrored), BigInt literal symbolic" stubs="<BoundExpression as Clone>::clone" unwind=5
+// @obl harness=c06_rule_col_op_lit_upper id=C06.index_bounds_mapping[col_<,<=_literal] tier=quick funcs="FilterToIndexScanRule::collect_bounds,FilterToIndexScanRule::extract_column_info,FilterToIndexScanRule::extract_literal" bounds="BigInt literal symbolic, column at position 1 of a 2-column index" stubs="<BoundExpression as Clone>::clone" unwind=5
 #[kani::proof]
 #[kani::unwind(5)]
 #[kani::stub(<BoundExpression as std::clone::Clone>::clone, stub_clone)]
-fn c06_rule_lit_op_col() {
+fn c06_rule_col_op_lit_upper() {
+    let c: i64 = kani::any();
+    kani::cover!(true, "reach");
+    check(cmp(col(COL), BinaryOperator::Lt, lit(c)), c, END, false);
+    check(cmp(col(COL), BinaryOperator::Le, lit(c)), c, END, true);
+}
+// @obl harness=c06_rule_lit_op_col_lower id=C06.index_bounds_mapping[literal_=,<,<=_col] tier=quick funcs="FilterToIndexScanRule::collect_bounds,FilterToIndexScanRule::extract_column_info,FilterToIndexScanRule::extract_literal" bounds="literal on the left (the comparison is mirrored), BigInt literal symbolic" stubs="<BoundExpression as Clone>::clone" unwind=5
+#[kani::proof]
+#[kani::unwind(5)]
+#[kani::stub(<BoundExpression as std::clone::Clone>::clone, stub_clone)]
+fn c06_rule_lit_op_col_lower() {
     let c: i64 = kani::any();
     kani::cover!(true, "reach");
     check(cmp(lit(c), BinaryOperator::Eq, col(COL)), c, BOTH, true);
     check(cmp(lit(c), BinaryOperator::Lt, col(COL)), c, START, false); // c <  col  <=> col >  c
     check(cmp(lit(c), BinaryOperator::Le, col(COL)), c, START, true); //  c <= col  <=> col >= c
+}
+// @obl harness=c06_rule_lit_op_col_upper id=C06.index_bounds_mapping[literal_>,>=_col] tier=quick funcs="FilterToIndexScanRule::collect_bounds,FilterToIndexScanRule::extract_column_info,FilterToIndexScanRule::extract_literal" bounds="literal on the left (the comparison is mirrored), BigInt literal symbolic" stubs="<BoundExpression as Clone>::clone" unwind=5
+#[kani::proof]
+#[kani::unwind(5)]
+#[kani::stub(<BoundExpression as std::clone::Clone>::clone, stub_clone)]
+fn c06_rule_lit_op_col_upper() {
+    let c: i64 = kani::any();
+    kani::cover!(true, "reach");
     check(cmp(lit(c), BinaryOperator::Gt, col(COL)), c, END, false); //   c >  col  <=> col <  c
     check(cmp(lit(c), BinaryOperator::Ge, col(COL)), c, END, true); //    c >= col  <=> col <= c
 }
-// @obl harness=c06_rule_residual id=C06.index_bounds_mapping[not indexable -> residual] tier=quick funcs="FilterToIndexScanRule::collect_bounds" bounds="col <> c, c <> col, non-indexed column = c, col = col, Double literal on an indexed column stays a bound" stubs="<BoundExpression as Clone>::clone" unwind=5
+// @obl harness=c06_rule_residual id=C06.index_bounds_mapping[not_indexable_->_residual] tier=quick funcs="FilterToIndexScanRule::collect_bounds" bounds="col <> c, c <> col, non-indexed column = c, col = col" stubs="<BoundExpression as Clone>::clone" unwind=5
 #[kani::proof]
 #[kani::unwind(5)]
 #[kani::stub(<BoundExpression as std::clone::Clone>::clone, stub_clone)]
@@ -124,7 +140,7 @@ fn c06_rule_residual() {
     check(cmp(col(COL), BinaryOperator::Eq, col(5)), c, RESIDUAL, false);
 }
 // the literal is taken over verbatim (no cast to the column type): a Double literal against a BigInt column
-// @obl harness=c06_rule_double_literal id=C06.index_bounds_mapping[col > Double literal] tier=quick funcs="FilterToIndexScanRule::collect_bounds" bounds="every f64 literal" stubs="<BoundExpression as Clone>::clone" unwind=5
+// @obl harness=c06_rule_double_literal id=C06.index_bounds_mapping[col_>_Double_literal] tier=quick funcs="FilterToIndexScanRule::collect_bounds" bounds="every f64 literal" stubs="<BoundExpression as Clone>::clone" unwind=5
 #[kani::proof]
 #[kani::unwind(5)]
 #[kani::stub(<BoundExpression as std::clone::Clone>::clone, stub_clone)]
